@@ -6,7 +6,7 @@
   Code modelled: src/pdsh/main.c main (`errx ("Couldn't load any pdsh modules")`, `retval = 1` when opt_verify fails,
   `return retval`), src/pdsh/opt.c (opt_default, opt_env, opt_args, wcoll_arg_process, get_host_rcmd_type,
   copy_username, _usage, _show_version), src/common/err.c errx (`exit (1)`), the prologue of dsh() in src/pdsh/dsh.c
-  (`rcmd_init` fails, `pcp_expand_dirs` fails: `exit (1)`), module loading (mod.c: no module found).
+  (`rcmd_init` fails: `exit (1)`; `pcp_expand_dirs` of pcp_client.c: errx), module loading (mod.c: no module found).
 
   The enumeration is tied to the source by harness/consts/exitsites.c (Gen/Exitsites.lean, regenerated every run): the
   probe numbers every `errx` / `exit` call site of opt.c and main.c, runs a battery of refusals through the real
@@ -33,7 +33,8 @@ inductive Refusal where
   | verify         -- opt_verify returned false (no targets, negative time-out, fanout < 1, the copy's operands, a
                    -- module's post-option check): main returns 1
   | rcmdInit       -- dsh(): rcmd_init failed: exit (1)
-  | copyList       -- dsh(): the list of files to copy cannot be built (pcp_expand_dirs): exit (1)
+  | copyList       -- dsh() -> pcp_expand_dirs (pcp_client.c): a source cannot be read (access / stat / opendir): errx
+                   -- (pcp_expand_dirs never returns NULL, so dsh()'s own `exit (1)` after it is dead code)
   deriving DecidableEq, Repr
 
 /-- information-only endings: nothing is contacted, status 0 -/
@@ -71,7 +72,7 @@ def Refusal.ending : Refusal → Ending
   | .progName => .errx
   | .verify => .mainReturn 1
   | .rcmdInit => .exitLit 1
-  | .copyList => .exitLit 1
+  | .copyList => .errx
 
 def Info.ending : Info → Ending
   | .listModules => .exitLit 0
